@@ -158,6 +158,19 @@ def check_chain(ctx: Ctx, c: Dict[str, Any], variant: int = 0) -> None:
             ctx.violation(dict(**sig, attr="data", item=it),
                           f"{what}: data is not where the returned grid says (ramp off by {err:.3g} on {int(m.sum())} samples inside the original field of view)", c)
             return
+    # (3a) selecting along the BATCH dimension keeps each image with its own grid
+    if kind == "batch2":
+        for form, sel in (("narrow(0, 1, 1)", lambda: x.narrow(0, 1, 1)), ("[1:2]", lambda: x[1:2]), ("narrow(0, 0, 2)", lambda: x.narrow(0, 0, 2)), ("[[1, 0]]", lambda: x[[1, 0]])):
+            try:
+                y = sel()
+                want = {"narrow(0, 1, 1)": [1], "[1:2]": [1], "narrow(0, 0, 2)": [0, 1], "[[1, 0]]": [1, 0]}[form]
+                yg = list(y.grids())
+                if len(yg) != len(want) or y.shape[0] != len(want) or any(yg[i] != grids[j] or max_err(y.tensor()[i], data[j]) > 0 for i, j in enumerate(want)):
+                    ctx.violation(dict(**sig, attr="batch_select", form=form), f"{what}: {form} does not return image(s) {want} with their own grid(s)", c)
+                    return
+            except Exception as ex:
+                ctx.violation(dict(**sig, attr="batch_select", form=form, exc=type(ex).__name__), f"{what}: {form} raised {type(ex).__name__}: {str(ex)[:100]}", c)
+                return
     # (3b) the sampling route to the same place: the ORIGINAL image(s) sampled on the derived grid(s) - taken with the other
     # align_corners flag, which names the same sample positions - must hold the ramp at those positions and carry those grids
     if len(hist) == 1:
